@@ -207,11 +207,34 @@ theorem ImplOK.sweep {im : Impl} (h : ImplOK 0 im) (hx : im.exec = 0) :
 
 /-! ## state level: "same core" and `setImpl` -/
 
-theorem InvX.congr {off} {s s' : St} (h : InvX off s) (hi : s'.impls = s.impls) (hG : s'.G = s.G)
-    (hS : s'.S = s.S) (he : s'.err = s.err) (hn : s.next ≤ s'.next) : InvX off s' := by
+theorem OwnOK.sub {O O' : List (Nat × Nat)} {G : List (Nat × Handle)} (h : OwnOK O G)
+    (hs : ∀ p ∈ O', p ∈ O) : OwnOK O' G :=
+  fun p hp => h p (hs p hp)
+
+theorem OwnOK.filter {O : List (Nat × Nat)} {G : List (Nat × Handle)} (h : OwnOK O G) (f : Nat × Nat → Bool) :
+    OwnOK (O.filter f) G :=
+  h.sub (fun _ hp => (List.mem_filter.mp hp).1)
+
+/-- same core, and the functor-owned signal objects are among the old ones -/
+theorem InvX.congrSub {off} {s s' : St} (h : InvX off s) (hi : s'.impls = s.impls) (hG : s'.G = s.G)
+    (hS : s'.S = s.S) (he : s'.err = s.err) (hn : s.next ≤ s'.next)
+    (hO : ∀ p ∈ s'.ownedG, p ∈ s.ownedG) : InvX off s' := by
   refine ⟨by rw [hi]; exact h.keys, ?_, by rw [hi]; exact h.ok, by rw [hi]; exact h.disj,
           by rw [hi, hG]; exact h.himpl, by rw [hS, hG]; exact h.fwdS, by rw [hi, hG]; exact h.fwdC,
-          by rw [he]; exact h.noerr⟩
+          by rw [he]; exact h.noerr, by rw [hG]; exact h.own.sub hO⟩
+  intro i im hh
+  rw [hi] at hh
+  obtain ⟨h1, h2⟩ := h.lt i im hh
+  exact ⟨by omega, fun k hk => by have := h2 k hk; omega⟩
+
+/-- same core (the last hypothesis, `ownedG` unchanged, is found by `rfl` where the new state is written
+    as an update of the old one) -/
+theorem InvX.congr {off} {s s' : St} (h : InvX off s) (hi : s'.impls = s.impls) (hG : s'.G = s.G)
+    (hS : s'.S = s.S) (he : s'.err = s.err) (hn : s.next ≤ s'.next)
+    (hO : s'.ownedG = s.ownedG := by first | rfl | assumption) : InvX off s' := by
+  refine ⟨by rw [hi]; exact h.keys, ?_, by rw [hi]; exact h.ok, by rw [hi]; exact h.disj,
+          by rw [hi, hG]; exact h.himpl, by rw [hS, hG]; exact h.fwdS, by rw [hi, hG]; exact h.fwdC,
+          by rw [he]; exact h.noerr, by rw [hG, hO]; exact h.own⟩
   intro i im hh
   rw [hi] at hh
   obtain ⟨h1, h2⟩ := h.lt i im hh
@@ -232,12 +255,19 @@ theorem Good.trans {off} {a b c : St} (h1 : Good off a b) (h2 : Good off b c) : 
   ⟨h2.inv, h1.frame.trans h2.frame⟩
 
 theorem Good.congr {off} {s s1 s2 : St} (h : Good off s s1) (hi : s2.impls = s1.impls) (hG : s2.G = s1.G)
-    (hS : s2.S = s1.S) (he : s2.err = s1.err) (hn : s1.next ≤ s2.next) : Good off s s2 :=
-  ⟨h.inv.congr hi hG hS he hn, h.frame.congr_right hi hS hn⟩
+    (hS : s2.S = s1.S) (he : s2.err = s1.err) (hn : s1.next ≤ s2.next)
+    (hO : s2.ownedG = s1.ownedG := by first | rfl | assumption) : Good off s s2 :=
+  ⟨h.inv.congr hi hG hS he hn hO, h.frame.congr_right hi hS hn⟩
+
+theorem Good.congrSub {off} {s s1 s2 : St} (h : Good off s s1) (hi : s2.impls = s1.impls) (hG : s2.G = s1.G)
+    (hS : s2.S = s1.S) (he : s2.err = s1.err) (hn : s1.next ≤ s2.next)
+    (hO : ∀ p ∈ s2.ownedG, p ∈ s1.ownedG) : Good off s s2 :=
+  ⟨h.inv.congrSub hi hG hS he hn hO, h.frame.congr_right hi hS hn⟩
 
 theorem Good.of_core {off} {s s' : St} (h : InvX off s) (hi : s'.impls = s.impls) (hG : s'.G = s.G)
-    (hS : s'.S = s.S) (he : s'.err = s.err) (hn : s.next ≤ s'.next) : Good off s s' :=
-  (Good.refl h).congr hi hG hS he hn
+    (hS : s'.S = s.S) (he : s'.err = s.err) (hn : s.next ≤ s'.next)
+    (hO : s'.ownedG = s.ownedG := by first | rfl | assumption) : Good off s s' :=
+  (Good.refl h).congr hi hG hS he hn hO
 
 theorem aget_setImpl (s : St) (i j : Nat) (im : Impl) :
     aget (setImpl s i im).impls j = if j = i then some im else aget s.impls j := by
@@ -273,7 +303,7 @@ theorem InvX.setImpl' {off off' : Nat → Nat} {s : St} (h : InvX off s) {i : Na
     (hids : ∀ k ∈ cids im', k ∈ cids im ∨
         (k < s.next ∧ ∀ j jm, aget s.impls j = some jm → k ∉ cids jm))
     (hf : ∀ c ∈ im'.cells, SlotOK s.G c.slot) : InvX off' (setImpl s i im') := by
-  refine ⟨?_, ?_, ?_, ?_, ?_, h.fwdS, ?_, h.noerr⟩
+  refine ⟨?_, ?_, ?_, ?_, ?_, h.fwdS, ?_, h.noerr, h.own⟩
   · exact keys_nodup_aset h.keys _ _
   · intro j jm hj
     rw [aget_setImpl] at hj
